@@ -280,7 +280,8 @@ Definition is_coerce (m : meth) : bool := match m with MCoerce _ _ => true | _ =
 Fixpoint nodup_cls (l : list pcls) : bool :=
   match l with [] => true | x :: r => negb (existsb (pcls_eqb x) r) && nodup_cls r end.
 
-Definition is_none_ty (t : ty) : bool := match ty_cls t with Some CNone => true | _ => false end.
+(* `NoneType in types`: the alternative is literally None *)
+Definition is_none_ty (t : ty) : bool := match t with TNone => true | _ => false end.
 
 Fixpoint compile (o : dopts) (acc : option constraints) (t : ty) {struct t} : meth :=
   match t with
@@ -547,33 +548,37 @@ Section Exec.
           match d with
           | PDict kvs =>
               let r :=
-                (fix loop (fs : list (mfield_ meth)) : nat * children * option res :=
+                (fix loop (fs : list (mfield_ meth)) : nat * list (string * value) * children * option res :=
                    match fs with
-                   | [] => (O, [], None)
+                   | [] => (O, [], [], None)
                    | MF name alias fm required reqby fb :: rest =>
                        match dict_get alias kvs with
                        | Some x =>
                            match go fm x with
-                           | ROk _ => let '(n, ch, st) := loop rest in (S n, ch, st)
-                           | RErr e => let '(n, ch, st) := loop rest in
-                                       (S n, if (required || negb fb)%bool then (KStr alias, e) :: ch else ch, st)
-                           | other => (O, [], Some other)
+                           | ROk _ => let '(n, vals, ch, st) := loop rest in (S n, (name, embed x) :: vals, ch, st)
+                           | RErr e => let '(n, vals, ch, st) := loop rest in
+                                       (S n, vals, if (required || negb fb)%bool then (KStr alias, e) :: ch else ch, st)
+                           | other => (O, [], [], Some other)
                            end
                        | None =>
-                           let '(n, ch, st) := loop rest in
-                           (n, if required then (KStr alias, err_msg msg_missing) :: ch else ch, st)
+                           let '(n, vals, ch, st) := loop rest in
+                           (n, vals, if required then (KStr alias, err_msg msg_missing) :: ch else ch, st)
                        end
                    end) fs in
               match r with
-              | (_, _, Some st) => st
-              | (count, ch, None) =>
-                  let ch' := if (negb (Nat.eqb (List.length kvs) count) && negb td)%bool
-                             then (ch ++ map (fun kv => (KStr (fst kv), err_msg msg_unexpected))
-                                          (filter (fun kv => negb (existsb (String.eqb (fst kv)) aliases)) kvs))%list
+              | (_, _, _, Some st) => st
+              | (count, vals, ch, None) =>
+                  let extra := filter (fun kv => negb (existsb (String.eqb (fst kv)) aliases)) kvs in
+                  let differ := negb (Nat.eqb (List.length kvs) count) in
+                  let ch' := if (differ && negb td)%bool
+                             then (ch ++ map (fun kv => (KStr (fst kv), err_msg msg_unexpected)) extra)%list
                              else ch in
+                  (* the constructor receives the data itself (field values are returned as is by check-only methods);
+                     a TypedDict is the data dict: same items as the fields followed by the additional ones *)
+                  let vals' := if (differ && td)%bool
+                               then (vals ++ map (fun kv => (fst kv, embed (snd kv))) extra)%list else vals in
                   match ch' with
-                  | [] => ROk (if td then embed d
-                               else construct (get_cls u cid) cid (map (fun kv => (fst kv, embed (snd kv))) kvs))
+                  | [] => ROk (construct (get_cls u cid) cid vals')
                   | _ => RErr (VE [] ch')
                   end
               end
@@ -680,7 +685,22 @@ Section Exec.
              | (c', m') :: r =>
                  if pcls_eqb c c' then
                    match go m' d with
-                   | RErr e => RErr (merge e (bad_type d (filter (fun x => negb (pcls_eqb x c)) (map fst tbl))))
+                   | RErr e =>
+                       (* an integer rejected by the int alternative is still tried as a float *)
+                       match (if pcls_eqb c CInt then
+                                (fix findf (l : list (pcls * meth)) : option res :=
+                                   match l with
+                                   | [] => None
+                                   | (c'', m'') :: r' => if pcls_eqb CFloat c'' then Some (go m'' d) else findf r'
+                                   end) tbl
+                              else None) with
+                       | Some (RErr e2) =>
+                           RErr (merge (merge e e2)
+                                       (bad_type d (filter (fun x => negb (pcls_eqb x CInt || pcls_eqb x CFloat))
+                                                           (map fst tbl))))
+                       | Some other => other
+                       | None => RErr (merge e (bad_type d (filter (fun x => negb (pcls_eqb x c)) (map fst tbl))))
+                       end
                    | other => other
                    end
                  else find r
